@@ -113,6 +113,7 @@ class ClientDriver(ReorgDriver):
         w.net.on_server_write = self.on_server_write
         self.mp_prev_view = None
         self.mp_list_version = None
+        self.mp_list_index_ok = False
         self.last_sync_refresh = None       # daemon.version of the last synchronised refresh seen
         self.cl = []
         self.proof_log = []
@@ -123,6 +124,13 @@ class ClientDriver(ReorgDriver):
         def rpc(method, params):
             if method == 'getrawmempool':
                 self.mp_list_version = d.version
+                srv = w.server
+                # "the index was at that height": flushed, nothing of a flush still in flight
+                self.mp_list_index_ok = bool(
+                    srv is not None and srv.db is not None and srv.db.state is not None
+                    and srv.db.state.height == d.height
+                    and not any(x.tag.endswith(('flush_dbs', 'advance_block', 'backup_block'))
+                                for x in w.sim.workers))
             return orig_rpc(method, params)
         d.rpc = rpc
 
@@ -197,7 +205,7 @@ class ClientDriver(ReorgDriver):
                              f'the touched set ({len(touched)} touched)', missing[:1])
         self.mp_prev_view = view
         synced = (self.mp_list_version == d.version and d.height == height
-                  and srv.db.state.height == height)
+                  and srv.db.state.height == height and self.mp_list_index_ok)
         if not synced:
             self.probe('refresh.unsynchronised')
             return
